@@ -201,7 +201,7 @@ Proof.
         destruct (snd (complex_parts bits s)); simpl; try discriminate.
         intros H; inversion H; reflexivity.
     + destruct (string_slice isp0 s); simpl; try discriminate.
-      destruct (map_out (parse_extra t) a); simpl; intros H; inversion H; reflexivity.
+      destruct (map_out _ a); simpl; intros H; inversion H; reflexivity.
 Qed.
 
 Lemma cast_some_set t s x : cast t (Some s) = Ok x -> is_set x = true.
